@@ -258,7 +258,7 @@ def coq_properties(ctx, pid=None, extra_targets=()):
             if rc2 == 0:
                 blocks = re.split(r'(?=Closed under the global context|Axioms:)', o2)
                 nclosed = sum(1 for b in blocks if b.startswith('Closed under'))
-                axs = sorted(set(re.findall(r'^([A-Za-z_][A-Za-z0-9_.\']*)\s*:', '\n'.join(b for b in blocks if b.startswith('Axioms:')), re.M)))
+                axs = sorted(set(re.findall(r'^([A-Za-z_][A-Za-z0-9_.\']*)\s*:', '\n'.join(b for b in blocks if b.startswith('Axioms:')), re.M)) - {'Axioms'})
                 ctx.cov['print_assumptions'][pid].update({'all_obligations_closed': nclosed, 'all_obligations_with_axioms': len(names) - nclosed, 'all_axioms': axs})
         except Exception as ex:
             ctx.notes.append('axiom report failed: %r' % (ex,))
